@@ -17,14 +17,14 @@ def _attr_env(mapping):
     return attr
 
 
-def phase_shift_of(call, t_values=(0, 1, 2, 3)):
-    """For `Cls(self.g, (self.p + k) % 4)` return (string arg text, k) or None."""
+def phase_shift_of(call, t_values=(0, 1, 2, 3), env=None):
+    """For `Cls(self.g, (self.p + k) % 4)` return (string arg text, k) or None (k may be a local bound in `env`)."""
     if not (isinstance(call, ast.Call) and len(call.args) >= 2):
         return None
     ks = set()
     for t in t_values:
         try:
-            v = ev(call.args[1], {}, attr=_attr_env({'self.p': t, 'self.ps': t}))
+            v = ev(call.args[1], dict(env or {}), attr=_attr_env({'self.p': t, 'self.ps': t}))
         except Undecidable:
             return None
         ks.add((v - t) % 4 if isinstance(v, int) and 0 <= v < 4 else None)
@@ -37,18 +37,26 @@ def rmul_table(f):
     """{c: ('self',) | ('shift', string arg, k) | ('other', text)} for c in 1, 1j, -1, -1j, and the fallback."""
     cname = f.posparams[1]
     out = {}
+    from .. import mini
     for c in (1, 1j, -1, -1j, 2.5):
-        sts = tables.reached(f, {cname: c}, kinds=(ast.Return, ast.Raise))
-        if not sts:
+        # the method is executed by the checker's interpreter with the scalar bound (if / elif chains, early returns and
+        # loops over a literal table of units all end at the return that this scalar reaches)
+        try:
+            tr = mini.execute(f.node, {cname: c})
+        except Undecidable as e:
+            out[c] = ('undecided', str(e))
+            continue
+        last = tr[-1] if tr else None
+        if last is None or not isinstance(last[0], (ast.Return, ast.Raise)):
             out[c] = ('none',)
             continue
-        st = sts[0][0]
+        st, env = last
         if isinstance(st, ast.Raise):
             out[c] = ('raise',)
         elif isinstance(st.value, ast.Name) and st.value.id == 'self':
             out[c] = ('self',)
         else:
-            ps = phase_shift_of(st.value)
+            ps = phase_shift_of(st.value, env=env)
             out[c] = ('shift',) + ps if ps else ('other', norm(st.value))
     return out
 
@@ -63,6 +71,9 @@ def check_rmul(run, f, rule='R12.rmul', field='g'):
             gs = 'self.' + field
         elif got and got[0] == 'shift':
             gs, gk = got[1], got[2]
+        elif got and got[0] == 'undecided':
+            run.undecided(rule, f, 'c == %r' % (c,), 'the method could not be interpreted for this scalar: %s' % got[1])
+            continue
         else:
             run.violation(rule, f, 'c == %r' % (c,), 'multiplication by %r must shift the phase indicator by %d (found %s)' % (c, k, got))
             continue
